@@ -54,6 +54,45 @@ def parseKind? : List String → Option FailKind
   | ["fault", st] => st.toNat?.map .fault
   | _ => none
 
+/-! arm tags (GUIDE "Arm coverage") -/
+
+def tagged (r : String) (arms : List String) : String :=
+  if arms.isEmpty then r else r ++ " @@ " ++ ",".intercalate arms
+
+def kindArm : FailKind → String
+  | .timeout => "fail-timeout"
+  | .closed => "fail-closed"
+  | .wrongType => "fail-wrongtype"
+  | .fault st =>
+    if st = BadTimeout then "fail-fault-badtimeout"
+    else if st = BadTooManyPublishRequests then "fail-fault-toomany"
+    else if st / 0x40000000 = 0 then "fail-fault-good" else "fail-fault-other"
+
+def tickArm (s : State) : String :=
+  if !s.cachedDue then "tick-not-due"
+  else if s.waiting ∧ loopLen s > 0 then "tick-held-back"
+  else if loopLen s < s.maxPublish then "tick-publish" else "tick-at-limit"
+
+def startArms (pfx : String) (s : State) : List String :=
+  [pfx ++ (if s.connected then "-connected" else "-unconnected") ++ (if s.pending.isEmpty then "-empty" else "-acks")]
+
+def opArms (s : State) : Op → List String
+  | .start => startArms "start" s
+  | .complete id sub _ more ka =>
+    (match findFlight s.flights id with
+     | some f => [match f.taken with | none => "complete-carried-none" | some _ => "complete-carried-acks"]
+     | none => []) ++
+    [if ka then "complete-keepalive" else "complete-data", if more then "complete-more" else "complete-nomore",
+     if s.subs.contains sub then "complete-sub-known" else "complete-sub-unknown"]
+  | .fail id k =>
+    kindArm k :: (match findFlight s.flights id with
+     | some f => [match f.taken with | none => "fail-requeue-none" | some _ => "fail-requeue-acks"]
+     | none => [])
+  | .setConnected c =>
+    [if c then "connected-1" else "connected-0"] ++ (if s.flights.isEmpty then [] else ["connected-change-inflight"])
+  | .addSub id => [if s.subs.contains id then "addsub-existing" else "addsub-new"]
+  | .delSub id => [if s.subs.contains id then "delsub-existing" else "delsub-missing"]
+
 def dstep (s : State) (toks : List String) : State × String :=
   match toks with
   | ["reset"] => (init, "ok " ++ showState init)
@@ -61,23 +100,43 @@ def dstep (s : State) (toks : List String) : State × String :=
     match n.toNat? with
     | some n => let s' := { init with maxPublish := n }; (s', "ok " ++ showState s')
     | none => (s, "bad-op")
+  | ["age"] => (age s, tagged "ok" [if s.subs.isEmpty then "age-no-subscription" else "age"])
   | ["trigger"] =>
     let (evs, s') := loopTrigger s
-    (s', s!"ok ev={showEvs evs} " ++ showState s')
+    (s', tagged (s!"ok ev={showEvs evs} " ++ showState s')
+      (startArms "trigger" s ++ (if s.cachedDue then ["trigger-cancels-held-tick"] else []) ++
+       (if loopLen s ≥ s.maxPublish then ["trigger-above-limit"] else [])))
   | ["lcomplete", i, sub, seq, more, kind] =>
     let ka : Option Bool :=
       if kind = "data" then some false else if kind = "kanone" ∨ kind = "kaempty" then some true else none
     match i.toNat?, sub.toNat?, seq.toNat?, parseBool? more, ka with
     | some i, some a, some b, some m, some k =>
       match loopComplete s i a b m k with
-      | some (evs, s') => (s', s!"ok ev={showEvs evs} " ++ showState s')
+      | some (evs, s') =>
+        let s1 := { (complete s i a b m k).2 with waiting := false }
+        (s', tagged (s!"ok ev={showEvs evs} " ++ showState s')
+          ([if m then (if s.connected then "lcomplete-more-restart" else "lcomplete-more-unconnected") else "lcomplete-nomore",
+            if kind = "data" then "lcomplete-data" else if kind = "kanone" then "lcomplete-kanone" else "lcomplete-kaempty"] ++
+           (if s.waiting then ["lcomplete-clears-waiting"] else []) ++
+           (if m then [] else [tickArm (newTurn s1)])))
       | none => (s, "bad-op")
     | _, _, _, _, _ => (s, "bad-op")
   | "lfail" :: i :: rest =>
     match i.toNat?, parseKind? rest with
     | some i, some k =>
       match loopFail s i k with
-      | some (evs, s') => (s', s!"ok ev={showEvs evs} " ++ showState s')
+      | some (evs, s') =>
+        let s1 := markWaiting (fail s i k).2 k.status
+        let retry := k.status = BadTimeout ∧ loopLen s1 < s1.maxPublish
+        (s', tagged (s!"ok ev={showEvs evs} " ++ showState s')
+          (["l" ++ kindArm k] ++
+           (if k.status = BadTimeout then
+              [if loopLen s1 + 1 < s1.maxPublish then "lfail-timeout-retry"
+               else if loopLen s1 + 1 = s1.maxPublish then "lfail-timeout-retry-last"
+               else if loopLen s1 = s1.maxPublish then "lfail-timeout-at-limit" else "lfail-timeout-above-limit"] ++
+              (if retry ∧ !s.connected then ["lfail-timeout-unconnected"] else [])
+            else []) ++
+           [tickArm (if retry then (loopStartTurn (newTurn s1)).2 else newTurn s1)]))
       | none => (s, "bad-op")
     | _, _ => (s, "bad-op")
   | _ =>
@@ -91,7 +150,7 @@ def dstep (s : State) (toks : List String) : State × String :=
       if viaLoop then (s, "bad-op") else
       match step s op with
       | (.badOp, s') => (s', "bad-op")
-      | (o, s') => (s', showOut o ++ " " ++ showState s')
+      | (o, s') => (s', tagged (showOut o ++ " " ++ showState s') (opArms s op))
 
 def driver : Driver := { σ := State, init := init, step := dstep }
 
